@@ -470,6 +470,56 @@ func runC09Distance(c *Ctx) {
 	if stops < 1 {
 		c.Errorf("no early-termination site found in Distance")
 	}
+	// (e) the search starts from the box of the very item whose envelope the
+	// pruning test measures: PrioritySearch visits records in order of their
+	// distance to the box it is given, and the early stop is only sound when
+	// that is the same lower bound (the item's own bounds)
+	searches := 0
+	for _, g := range withNewHelpers(f) {
+		for _, h := range append([]*ssa.Function{g}, allAnon(g)...) {
+			for _, ps := range callsTo(h, "rtree.(*RTree).PrioritySearch") {
+				searches++
+				args := ps.Common().Args
+				bad := ""
+				boxCall, ok := args[1].(*ssa.Call)
+				cal := staticCallee(boxCall)
+				if !ok || cal == nil || cal.Name() != "box" || len(boxCall.Call.Args) != 1 {
+					bad = "the search box is not the box() of an item"
+				} else {
+					recv := resolveCell(boxCall.Call.Args[0])
+					if _, isCall := recv.(*ssa.Call); isCall {
+						rs, _ := accessPath(recv)
+						bad = "the search starts from the box of " + trunc(rs) + ", a value derived from the item, not from the item's own box"
+					}
+					// when the closure captures the item's envelope, it is the envelope of the same item
+					if mc, isMC := args[2].(*ssa.MakeClosure); isMC && bad == "" {
+						for _, b := range mc.Bindings {
+							al, isAl := b.(*ssa.Alloc)
+							if !isAl {
+								continue
+							}
+							envCall, isCall := uniqueStoreValue(al).(*ssa.Call)
+							if !isCall || len(envCall.Call.Args) != 1 {
+								continue
+							}
+							if ec := staticCallee(envCall); ec == nil || (ec.Name() != "uncheckedEnvelope" && ec.Name() != "Envelope") {
+								continue
+							}
+							if er := resolveCell(envCall.Call.Args[0]); !sameValue(er, recv) && er != recv {
+								es, _ := accessPath(er)
+								rs, _ := accessPath(recv)
+								bad = "the search starts from the box of " + trunc(rs) + " but prunes with the envelope of " + trunc(es)
+							}
+						}
+					}
+				}
+				c.Check(bad == "", ps.Pos(), FuncName(h), "origin of the tree search", "the box of the item whose envelope the pruning test uses", bad+": records are then visited in an order that is not the order of the bound the early stop relies on, and a nearer record can be skipped")
+			}
+		}
+	}
+	if searches < 2 {
+		c.Errorf("found %d PrioritySearch calls in Distance, expected 2", searches)
+	}
 	// (d) undefined iff +Inf
 	okInf := false
 	for _, r := range returnsOf(f) {
@@ -518,9 +568,16 @@ func runC09Distance(c *Ctx) {
 			c.Check(good, st.Pos(), FuncName(g), "update of the running minimum", "min = fastMin(min, candidate)", "the running minimum is overwritten with something other than min(itself, candidate): the result can increase")
 		})
 	}
-	if mins < 2 {
-		c.Errorf("found %d updates of the running minimum, expected 2", mins)
+	if mins < 1 {
+		c.Errorf("found %d updates of the running minimum, expected at least 1", mins)
 	}
+}
+
+func uniqueStoreValue(al *ssa.Alloc) ssa.Value {
+	if st := uniqueStore(al); st != nil {
+		return st
+	}
+	return nil
 }
 
 func allAnon(f *ssa.Function) []*ssa.Function {
